@@ -47,7 +47,31 @@ type c08Run struct {
 	Seed      int64    `json:"seed"`
 	DirDate   bool     `json:"dirDate"` // the telemetry directory's path contains a week date
 	Extras    bool     `json:"extras"` // add an active and an unreadable count file (must stay untouched)
+	BuildVar  int      `json:"buildVar"`  // which of the five build fields differs between odd and even files (0 GOARCH, 1 GOOS, 2 GoVersion, 3 Version, 4 Program, 5 none: one build, values add up)
+	ModeLocal bool     `json:"modeLocal"` // the mode file says local: reports are made, nothing is offered for upload
 }
+
+// c08Build is the build (program, version, Go version, GOOS, GOARCH) that wrote count file f.
+func c08Build(f, v int) [5]string {
+	b := [5]string{"prog", "v1.0.0", "go1.21.0", "linux", "amd64"}
+	if f%2 == 0 {
+		switch v {
+		case 0:
+			b[4] = "386"
+		case 1:
+			b[3] = "darwin"
+		case 2:
+			b[2] = "go1.22.0"
+		case 3:
+			b[1] = "v1.1.0"
+		case 4:
+			b[0] = "prog2"
+		}
+	}
+	return b
+}
+
+const c08Stack = "st\nmain.f:10,+0x1"
 
 var c08WeekDate = map[int]string{1: "2024-01-08", 2: "2024-01-15", 3: "2024-01-22"}
 
@@ -103,22 +127,36 @@ func (w *c08World) bodyOf(data []byte) rt.M {
 		}
 	}
 	// every program report must hold exactly the sum over the files of ITS build
-	// (the five build fields), and no build may appear twice
+	// (the five build fields), for the counter and for the stack counter, and no
+	// build may appear twice
 	buildsOK := true
 	seen := map[string]bool{}
 	for _, p := range r.Programs {
-		key := p.Program + "|" + p.Version + "|" + p.GoVersion + "|" + p.GOOS + "|" + p.GOARCH
-		if seen[key] || p.Program != "prog" || p.Version != "v1.0.0" || p.GoVersion != "go1.21.0" || p.GOOS != "linux" {
+		key := [5]string{p.Program, p.Version, p.GoVersion, p.GOOS, p.GOARCH}
+		ks := strings.Join(key[:], "|")
+		if seen[ks] {
 			buildsOK = false
 		}
-		seen[key] = true
+		seen[ks] = true
 		var want int64
+		known := false
+		for _, f := range w.run.Files {
+			if c08Build(f, w.run.BuildVar) == key {
+				known = true
+			}
+		}
 		for _, f := range files {
-			if c08Arch(f) == p.GOARCH {
+			if c08Build(f, w.run.BuildVar) == key {
 				want += 1 << uint(f)
 			}
 		}
-		if p.Counters["c"] != want || len(p.Counters) > 1 || len(p.Stacks) > 0 {
+		if !known || p.Counters["c"] != want || len(p.Counters) > 1 {
+			buildsOK = false
+		}
+		if want != 0 && (p.Stacks[c08Stack] != want || len(p.Stacks) != 1) {
+			buildsOK = false
+		}
+		if want == 0 && len(p.Stacks) > 0 {
 			buildsOK = false
 		}
 	}
@@ -174,13 +212,9 @@ func (w *c08World) project() rt.M {
 		"alive": alive, "untouched": untouched, "quiet": quiet}
 }
 
-func c08Arch(f int) string {
-	if f%2 == 0 {
-		return "386"
-	}
-	return "amd64"
-}
+func c08Arch(f int) string { return c08Build(f, 0)[4] }
 
+// the name of a count file does not matter to the uploader (it reads the metadata)
 func c08CountName(f int) string {
 	return fmt.Sprintf("f%d-prog@v1.0.0-go1.21.0-linux-%s-2024-01-01.v1.count", f, c08Arch(f))
 }
@@ -209,7 +243,11 @@ func c08One(t *testing.T, run *c08Run) {
 	local, upload := filepath.Join(w.dir, "local"), filepath.Join(w.dir, "upload")
 	os.MkdirAll(local, 0777)
 	os.MkdirAll(upload, 0777)
-	os.WriteFile(filepath.Join(w.dir, "mode"), []byte("on 2020-01-01"), 0666)
+	if run.ModeLocal {
+		os.WriteFile(filepath.Join(w.dir, "mode"), []byte("local 2020-01-01"), 0666)
+	} else {
+		os.WriteFile(filepath.Join(w.dir, "mode"), []byte("on 2020-01-01"), 0666)
+	}
 	start := time.Date(2024, 1, 24, 12, 0, 0, 0, time.UTC)
 	isLate := map[int]bool{}
 	for _, f := range run.Late {
@@ -218,8 +256,9 @@ func c08One(t *testing.T, run *c08Run) {
 	writeCount := func(i, f int) {
 		end := c08WeekDate[run.WeekOf[i]]
 		endT, _ := time.Parse("2006-01-02", end)
-		meta := rt.V1Meta(endT.AddDate(0, 0, -7).Format(time.RFC3339), endT.Format(time.RFC3339), "prog", "v1.0.0", "go1.21.0", "linux", c08Arch(f))
-		data, err := rt.WriteV1(meta, []rt.V1Entry{{Name: "c", Value: 1 << uint(f)}})
+		b := c08Build(f, run.BuildVar)
+		meta := rt.V1Meta(endT.AddDate(0, 0, -7).Format(time.RFC3339), endT.Format(time.RFC3339), b[0], b[1], b[2], b[3], b[4])
+		data, err := rt.WriteV1(meta, []rt.V1Entry{{Name: "c", Value: 1 << uint(f)}, {Name: c08Stack, Value: 1 << uint(f)}})
 		if err != nil {
 			t.Fatal(err)
 		}
@@ -250,7 +289,8 @@ func c08One(t *testing.T, run *c08Run) {
 				continue
 			}
 			endT, _ := time.Parse("2006-01-02", c08WeekDate[run.WeekOf[i]])
-			meta := rt.V1Meta(endT.AddDate(0, 0, -7).Format(time.RFC3339), endT.Format(time.RFC3339), "prog", "v1.0.0", "go1.21.0", "linux", c08Arch(f))
+			b := c08Build(f, run.BuildVar)
+			meta := rt.V1Meta(endT.AddDate(0, 0, -7).Format(time.RFC3339), endT.Format(time.RFC3339), b[0], b[1], b[2], b[3], b[4])
 			full, _ := rt.WriteV1(meta, []rt.V1Entry{{Name: "c", Value: 1 << 21}})
 			hdr := append([]byte{}, full[:rt.V1HeaderLen(meta)]...)
 			p3 := filepath.Join(local, "mcut-prog@v1.0.0-go1.21.0-linux-"+c08Arch(f)+"-2024-01-02.v1.count")
@@ -267,8 +307,12 @@ func c08One(t *testing.T, run *c08Run) {
 			break
 		}
 	}
-	cfg := &telemetry.UploadConfig{GOOS: []string{"linux"}, GOARCH: []string{"amd64", "386"}, GoVersion: []string{"go1.21.0"}, SampleRate: 1,
-		Programs: []*telemetry.ProgramConfig{{Name: "prog", Versions: []string{"v1.0.0"}, Counters: []telemetry.CounterConfig{{Name: "c", Rate: 1}}}}}
+	pc := func(name string) *telemetry.ProgramConfig {
+		return &telemetry.ProgramConfig{Name: name, Versions: []string{"v1.0.0", "v1.1.0"}, Counters: []telemetry.CounterConfig{{Name: "c", Rate: 1}},
+			Stacks: []telemetry.CounterConfig{{Name: "st", Rate: 1, Depth: 4}}}
+	}
+	cfg := &telemetry.UploadConfig{GOOS: []string{"linux", "darwin"}, GOARCH: []string{"amd64", "386"}, GoVersion: []string{"go1.21.0", "go1.22.0"}, SampleRate: 1,
+		Programs: []*telemetry.ProgramConfig{pc("prog"), pc("prog2")}}
 
 	srv := httptest.NewServer(http.HandlerFunc(func(rw http.ResponseWriter, r *http.Request) {
 		body, _ := io.ReadAll(r.Body)
